@@ -72,6 +72,8 @@ def declared_conditions(a):
     elif a[0] in ("union", "inter"):
         for x in a[1]:
             out += declared_conditions(x)
+    elif a[0] == "rebound" and isinstance(a[1], list):
+        out += declared_conditions(a[1])  # a built-in value type under a value-dependent bound
     return out
 
 
